@@ -234,7 +234,21 @@ def _merge_leading_temps(body, params):
         if t in params or loads != 1 or stores != 1:
             break
         if e is None or not _first_evaluated(e, t):
-            break
+            run = _leading_run(body, params)
+            if run is None:
+                break
+            k, names = run
+            b2 = _copy_tree(body[k])
+            holder = ast.Expr(value=b2.test if isinstance(b2, ast.If) else b2.value)
+            for a_ in body[:k]:
+                _replace_name(holder, a_.targets[0].id, _copy_tree(a_.value))
+            if isinstance(b2, ast.If):
+                b2.test = holder.value
+            else:
+                b2.value = holder.value
+            ast.fix_missing_locations(b2)
+            body = [b2] + body[k + 1:]
+            continue
         b2 = _copy_tree(b)
         if isinstance(b2, ast.If):
             holder = ast.Expr(value=b2.test)
@@ -248,6 +262,35 @@ def _merge_leading_temps(body, params):
         ast.fix_missing_locations(b2)
         body = [b2] + body[2:]
     return body
+
+
+def _leading_run(body, params):
+    """`t1 = E1; ..; tk = Ek; S` with S reading t1..tk once each, in that order, before anything else it evaluates -> (k, names)"""
+    from .model import _first_evaluated_seq
+    temps = []
+    for st in body:
+        if isinstance(st, ast.Assign) and len(st.targets) == 1 and isinstance(st.targets[0], ast.Name) and st.targets[0].id not in params:
+            temps.append(st)
+        else:
+            break
+    for k in range(min(len(temps), len(body) - 1), 1, -1):
+        names = [a.targets[0].id for a in temps[:k]]
+        if len(set(names)) != k:
+            continue
+        S = body[k]
+        e = S.value if isinstance(S, (ast.Return, ast.Assign, ast.Expr)) else S.test if isinstance(S, ast.If) else None
+        if e is None:
+            continue
+        ok = True
+        for nm in names:
+            loads = [n for s_ in body for n in ast.walk(s_) if isinstance(n, ast.Name) and n.id == nm and isinstance(n.ctx, ast.Load)]
+            stores = [n for s_ in body for n in ast.walk(s_) if isinstance(n, ast.Name) and n.id == nm and isinstance(n.ctx, (ast.Store, ast.Del))]
+            if len(loads) != 1 or len(stores) != 1 or not any(n is loads[0] for n in ast.walk(e)):
+                ok = False
+                break
+        if ok and _first_evaluated_seq(e, names):
+            return k, names
+    return None
 
 
 def _call_free(e):
